@@ -5,7 +5,7 @@ From Coq Require Import List NArith Bool PeanoNat.
 From V.common Require Import Wire.
 From V.Mgr Require Model.
 From V.Ts Require Import Report.
-From V.C07 Require Import Model Block.
+From V.C07 Require Import Model Block Loop.
 Import ListNotations.
 Open Scope N_scope.
 
@@ -35,6 +35,8 @@ Definition enc_notes (ns : list note) : list N :=
   N.of_nat (length pe) :: flat_map (fun p => [N.of_nat (fst p); snd p]) pe ++ [mgr_count ns].
 
 Definition NA : list N := [2; 0; 0; 0].
+(* report-level protocols with an odd index have a fallback name *)
+Definition UNIT_FB : N := 170.
 
 Definition ustep (n : nat) (u : ustate) (o : N * (N * N)) : ustate * list N :=
   let '(op, (a, b)) := o in
@@ -49,6 +51,16 @@ Definition ustep (n : nat) (u : ustate) (o : N * (N * N)) : ustate * list N :=
   | 4 => if (ai <? n)%nat then
            let '(ns, ok) := report_sub_fail (u_alive u) ai in (u, b2n (negb ok) :: enc_notes ns ++ [0])
          else (u, NA)
+  | 7 => (* what accept does, then protocol_codec under every advertised name: no panic; the set offers
+            the main names and the fallback names of the protocols with an odd index *)
+         let '(ns, _) := report_established (u_alive u) in
+         (u, 0 :: enc_notes ns ++ [N.of_nat (length (Names.keep_alives (mk_tbl n UNIT_FB)))])
+  | 8 => (* report_substream_open under name code a *)
+         let '(ns, ok) := match negotiated (mk_tbl n UNIT_FB) a with
+                          | Some i => report_sub_open (u_alive u) i false
+                          | None => ([], false)
+                          end in
+         (u, b2n (negb ok) :: enc_notes ns ++ [0])
   | _ => (* 6: report_connection_closed while the channel of protocol a is full: the manager must
             not have been told when the report is parked on that channel *)
          if (ai <? n)%nat then
@@ -65,7 +77,7 @@ Fixpoint urun (n : nat) (u : ustate) (ops : list (N * (N * N))) : list N :=
 
 Definition p_uop : parser (N * (N * N)) :=
   let* op := pN in let* a := pN in let* b := pN in
-  if (1 <=? op) && (op <=? 6) then pret (op, (a, b)) else pfail.
+  if (1 <=? op) && (op <=? 8) then pret (op, (a, b)) else pfail.
 
 Definition decode_unit (l : list N) : option (nat * list (N * (N * N))) :=
   pall (let* n := pN in let* ops := plist p_uop in
@@ -439,6 +451,95 @@ Definition decode_block (l : list N) : option (nat * (nat * list (N * (N * N))))
   end.
 
 (* ------------------------------------------------------------------------------------------ *)
+(* kind 3: loop level (harness/src/c07_loop.rs; model coq/C07/Loop.v). The real `start()` future of a
+   TCP / WebSocket connection is polled by hand against a bare yamux peer.
+   case  = 3 tr n fbmask dead0 cap nops (op a b f c)*     (tr: transport + 4 * hold)
+   trace = 1 (cnt kind* ){n}  record0  record*      record = rc early_done early_mgr (cnt kind* ){n} mgr state arm
+   (record0: what happens when the loop is polled for the first time) *)
+
+Definition lcase := (N * (N * (N * (N * N))))%type.
+
+Definition lop_of (o : lcase) : option lop :=
+  let '(op, (a, (b, (f, c)))) := o in
+  match op with
+  | 1 => Some (LOpen (N.to_nat a) b)
+  | 2 => Some (LRemoteOpen a b)
+  | 3 => Some (LForce (N.to_nat a))
+  | 4 => Some (LDrop (N.to_nat a))
+  | 5 => Some (LDie (N.to_nat a))
+  | 6 => Some LMgrDie
+  | 7 => Some (LRemoteClose c)
+  | 9 => Some (LRace a (if b =? 0 then 12 else b) c)
+  | _ => None
+  end.
+
+Definition kinds_of (n : nat) (ns : list note) : list N :=
+  let pe := flat_map pe_of_note ns in
+  flat_map (fun i => let ks := sort_by (fun x => x) (map snd (filter (fun p => (fst p =? i)%nat) pe)) in
+                     N.of_nat (length ks) :: ks) (seq 0 n).
+
+Definition lrecord (n : nat) (rc : N) (early : N * N) (ns : list note) (t : task) (arm : N) : list N :=
+  rc :: fst early :: snd early :: kinds_of n ns ++ [mgr_count ns; state_code t; arm].
+
+(* with the channel of protocol f-1 full: has the loop ended / has the manager been told before that
+   channel is drained? Only if the protocol has exited (its channel is closed, nothing waits on it). *)
+Definition early_obs (n : nat) (s s1 : lst) (f : N) : N * N :=
+  if (1 <=? f) && (f <=? N.of_nat n) && running s && negb (running s1) then
+    if nth (N.to_nat (f - 1)) (alive (l_task s1)) false then (0, 0)
+    else (1, b2n (mgr_up (l_task s1)))
+  else (0, 0).
+
+Definition lstep_trace (n : nat) (s : lst) (o : lcase) : lst * list N :=
+  match lop_of o with
+  | None => (s, [2])
+  | Some lo =>
+      let rc := rc_of s lo in
+      let f := fst (snd (snd (snd o))) in
+      let '(s1, ns) := lstep s lo in
+      let arm := if (rc =? 0) && negb (arm_allowed s lo) then 999
+                 else exit_arm (l_task s) (events_of s lo) in
+      (s1, lrecord n rc (early_obs n s s1 f) ns (l_task s1) arm)
+  end.
+
+Fixpoint lrun_trace (n : nat) (s : lst) (ops : list lcase) : list N :=
+  match ops with
+  | [] => []
+  | o :: r => let '(s1, t) := lstep_trace n s o in t ++ lrun_trace n s1 r
+  end.
+
+Definition mask_alive (n : nat) (dead0 : N) : list bool :=
+  map (fun i => negb (N.testbit dead0 (N.of_nat i))) (seq 0 n).
+
+Definition loop_trace (n : nat) (fbmask dead0 : N) (ops : list lcase) : list N :=
+  let '(s0, ns0) := linit (mask_alive n dead0) fbmask in
+  let '(s1, ns1) := lsettle s0 in
+  kinds_of n ns0 ++
+  lrecord n 0 (0, 0) ns1 (l_task s1) (exit_arm (l_task s0) (settle_events s0)) ++
+  lrun_trace n s1 ops.
+
+(* `hold`: the case runs with a long substream-open timeout, b = 4 (the remote never answers and nobody
+   waits for the timeout) is allowed and b = 3 (wait for the timeout) is not *)
+Definition p_lop (hold quic : bool) : parser lcase :=
+  let* op := pN in let* a := pN in let* b := pN in let* f := pN in let* c := pN in
+  if (((1 <=? op) && (op <=? 7)) || (op =? 9)) &&
+     (if (op =? 1) || (op =? 2) then if hold then negb (b =? 3) else negb (b =? 4) else true) &&
+     (* QUIC: whether an outbound open that times out is answered is C08's business (F-C08a) *)
+     negb ((op =? 1) && (b =? 3) && quic) &&
+     (* races: an inbound substream only together with "every handle dropped" (else it would be served
+        while the connection ends: the notes would depend on the schedule); with pending negotiations
+        possible (hold cases) only that combination *)
+     (if op =? 9 then (b <? 16) && (if hold then b =? 0 else negb (N.testbit b 3) || N.testbit b 2) else true)
+  then pret (op, (a, (b, (f, c)))) else pfail.
+
+Definition decode_loop (l : list N) : option (nat * (N * (N * list lcase))) :=
+  pall (let* tr := pN in let* n := pN in let* fb := pN in let* d0 := pN in let* cap := pN in
+        (* tr: bits 0-1 transport (0 TCP, 1 WebSocket, 2 QUIC), bit 2 hold *)
+        let* ops := plist (p_lop (N.testbit tr 2) (tr mod 4 =? 2)) in
+        if (tr <? 8) && (tr mod 4 <? 3) && negb (tr =? 6) && (1 <=? n) && (n <=? 4) && (fb <? 16) && (d0 <? 16) && (1 <=? cap) && (cap <=? 64) &&
+           (N.of_nat (length ops) <=? 40)
+        then pret (N.to_nat n, (fb, (d0, ops))) else pfail) l.
+
+(* ------------------------------------------------------------------------------------------ *)
 
 Definition run_case (l : list N) : list N :=
   match l with
@@ -457,6 +558,11 @@ Definition run_case (l : list N) : list N :=
   | 2 :: r =>
       match decode_block r with
       | Some (n, (cap, ops)) => 1 :: brun_trace (binit n cap) ops
+      | None => [0]
+      end
+  | 3 :: r =>
+      match decode_loop r with
+      | Some (n, (fb, (d0, ops))) => 1 :: loop_trace n fb d0 ops
       | None => [0]
       end
   | _ => [0]
@@ -497,6 +603,17 @@ Definition ustep_ok (n : nat) (u : ustate) (o : N * (N * N)) (r : N * (list (nat
             then (match evs with [(i, 5)] => (i =? ai)%nat | _ => false end) && (rc =? 0)
             else match evs with [] => true | _ => false end) && (m =? 0)
          else true
+  | 7 => (* no name is offered for negotiation without a protocol behind it (rc = number of panics of
+            protocol_codec), whichever protocols have exited *)
+         told_exactly (u_alive u) 1 evs && (rc =? 0) && (m =? 0)
+  | 8 => (* a substream negotiated under a main or fallback name reaches the protocol it belongs to, if it
+            still runs; nobody else *)
+         match negotiated (mk_tbl n UNIT_FB) a with
+         | Some i => if nth i (u_alive u) false
+                     then (match evs with [(j, 3)] => (j =? i)%nat | _ => false end) && (rc =? 0)
+                     else match evs with [] => true | _ => false end
+         | None => match evs with [] => negb (rc =? 0) | _ => false end
+         end && (m =? 0)
   | _ => match evs with [] => m =? 0 | _ => false end
   end.
 
@@ -576,8 +693,11 @@ Definition estep_ok (n : nat) (p : pst) (s : N * (N * (N * N))) (rc : N) (la lb 
         (* the end of a connection is noticed at both ends *)
         (if bup1 then Bool.eqb appa appb else negb appa) &&
         (* the exit of one protocol, or a substream for it, closes nothing while another protocol
-           of the node is still there *)
-        (if ((op =? 10) || (op =? 12) || (op =? 13) || (op =? 14)) && existsb (fun x => x) actor_al1
+           of the node is still there. Step 14 also makes a NEW connection: if the other node has no
+           protocol left, nobody there keeps it open and it is announced and closed at once (the clause
+           "a new connection is announced" below says so); that closing is not caused by the exit *)
+        (if ((op =? 10) || (op =? 12) || (op =? 13) || (op =? 14)) && existsb (fun x => x) actor_al1 &&
+            (negb (op =? 14) || existsb (fun x => x) (if a =? 0 then snd al1 else fst al1))
          then no_closed la && no_closed lb else true) &&
         (* a new connection is announced on both sides *)
         (if ((op =? 11) || (op =? 14)) && p_bup p && negb appa0 && negb appb0
@@ -664,6 +784,95 @@ Definition block_ok (n : nat) (ops : list (N * (N * N)))
                          else true)) conns
    else true).
 
+(* -- kind 3 -- what the property text demands of a loop-level trace, from the script alone (no model
+   of the loop): who is told what, how often, in which record, manager after protocols, causes end the
+   connection and nothing else does. *)
+Record lrec := mkLR { r_rc : N; r_ed : N; r_em : N; r_ev : list (list N); r_mgr : N; r_state : N; r_arm : N }.
+Definition p_lrec (n : nat) : parser lrec :=
+  let* rc := pN in let* ed := pN in let* em := pN in let* ev := prep n (plist pN) in
+  let* m := pN in let* st := pN in let* arm := pN in pret (mkLR rc ed em ev m st arm).
+
+Record ost := mkO { o_alive : list bool; o_mgr : bool; o_handle : list bool; o_ended : N; o_pend : nat }.
+
+Definition count_k (k : N) (l : list N) : nat := length (filter (N.eqb k) l).
+Definition only_kinds (ks : list N) (l : list N) : bool := forallb (fun x => existsb (N.eqb x) ks) l.
+
+(* every running protocol exactly one event of kind k; nobody anything else of kind 1 or 2 *)
+Definition each_once (al : list bool) (k : N) (ev : list (list N)) : bool :=
+  forallb (fun i => (count_k k (nth i ev []) =? (if nth i al false then 1 else 0))%nat) (seq 0 (length al)).
+Definition none_of (k : N) (ev : list (list N)) : bool := forallb (fun l => (count_k k l =? 0)%nat) ev.
+Definition all_silent (ev : list (list N)) : bool := forallb (fun l => match l with [] => true | _ => false end) ev.
+
+Definition lstep_ok (n : nat) (tbl : list Names.proto) (o : ost) (c : lcase) (r : lrec) : option ost :=
+  let '(op, (a, (b, (f, _)))) := c in
+  let ai := N.to_nat a in
+  let was_running := o_ended o =? 0 in
+  (* the script's effect on who runs and who holds a handle *)
+  let al1 := if (op =? 5) && (ai <? n)%nat then set_nth ai false (o_alive o) else o_alive o in
+  let mgr1 := if op =? 6 then false else o_mgr o in
+  let h1 := if (op =? 4) && (ai <? n)%nat then set_nth ai false (o_handle o)
+            else if (op =? 9) && (r_rc r =? 0) && N.testbit (if b =? 0 then 12 else b) 2
+                 then map (fun _ => false) (o_handle o) else o_handle o in
+  let ends := negb (r_state r =? 0) && was_running in
+  (* a negotiation the remote never answers keeps a permit: the connection stays open for it *)
+  let nopend := (o_pend o =? 0)%nat in
+  let pend1 := if ((op =? 1) || (op =? 2)) && (r_rc r =? 0) && (b =? 4) then S (o_pend o) else o_pend o in
+  let mask := if b =? 0 then 12 else b in
+  let cause :=
+    ((op =? 3) && (r_rc r =? 0)) || ((op =? 7) && (r_rc r =? 0)) ||
+    ((op =? 9) && (r_rc r =? 0) && match race_arms (o_handle o) (o_pend o) mask with [] => false | _ => true end) ||
+    ((op =? 4) && negb (existsb (fun x => x) h1) && nopend) in
+  let kk : N := if b =? 0 then 4 else 5 in
+  let ok :=
+    (* established is told at accept only *)
+    none_of 1 (r_ev r) &&
+    (* nothing is said to a protocol that has exited *)
+    forallb (fun i => nth i al1 false || match nth i (r_ev r) [] with [] => true | _ => false end) (seq 0 n) &&
+    (if negb was_running then
+       (* afterwards: silence, and the verdict stays *)
+       all_silent (r_ev r) && (r_mgr r =? 0) && (r_state r =? o_ended o) && (r_arm r =? 0)
+     else if ends then
+       (* the connection ends: every protocol still running is told closed exactly once, then the manager
+          exactly once; it ends only on a termination cause *)
+       each_once al1 2 (r_ev r) && (r_mgr r =? b2n mgr1) && cause &&
+       (1 <=? r_arm r) && (r_arm r <=? 5) &&
+       (* protocols before the manager: while the closed notice of a running protocol waits for room, the
+          manager has not been told and the task has not finished *)
+       (if (1 <=? f) && (f <=? N.of_nat n) && nth (N.to_nat (f - 1)) al1 false
+        then (r_ed r =? 0) && (r_em r =? 0) else true)
+     else
+       (* it goes on: nobody is told closed, and every termination cause would have ended it *)
+       none_of 2 (r_ev r) && (r_mgr r =? 0) && negb cause && (r_arm r =? 0) && (r_ed r =? 0) && (r_em r =? 0) &&
+       (* the remaining protocols keep using it *)
+       (if (op =? 1) && (r_rc r =? 0) && nth ai al1 false && negb (b =? 4)
+        then (count_k kk (nth ai (r_ev r) []) =? 1)%nat else true) &&
+       (if (op =? 2) && (r_rc r =? 0) && (b =? 0)
+        then match negotiated tbl a with
+             | Some i => if nth i al1 false then (count_k 3 (nth i (r_ev r) []) =? 1)%nat else true
+             | None => true
+             end
+        else true)) in
+  if ok then Some (mkO al1 mgr1 h1 (if was_running then r_state r else o_ended o) pend1) else None.
+
+Fixpoint lrun_ok (n : nat) (tbl : list Names.proto) (o : ost) (cs : list lcase) (rs : list lrec) : bool :=
+  match cs, rs with
+  | [], [] => true
+  | c :: cs', r :: rs' =>
+      match lstep_ok n tbl o c r with Some o1 => lrun_ok n tbl o1 cs' rs' | None => false end
+  | _, _ => false
+  end.
+
+Definition loop_ok (n : nat) (fb d0 : N) (ops : list lcase) (est : list (list N)) (r0 : lrec) (rs : list lrec) : bool :=
+  let al := mask_alive n d0 in
+  (* accept: every protocol that runs is told established exactly once, nothing else *)
+  each_once al 1 est && forallb (only_kinds [1]) est &&
+  (* first polls: the connection stays unless nobody took a handle *)
+  none_of 1 (r_ev r0) &&
+  (if existsb (fun x => x) al
+   then (r_state r0 =? 0) && all_silent (r_ev r0) && (r_mgr r0 =? 0)
+   else negb (r_state r0 =? 0) && all_silent (r_ev r0) && (r_mgr r0 =? 1)) &&
+  lrun_ok n (mk_tbl n fb) (mkO al true al (r_state r0) 0) ops rs.
+
 Definition pst_init (n : nat) : pst :=
   mkP (repeat false (n + 2), repeat false (n + 2)) (repeat true (n + 3), repeat true (n + 3)) true.
 
@@ -704,7 +913,18 @@ Definition prop_ok (case trace : list N) : bool :=
           end
       | None => false
       end
+  | 3 :: r, 1 :: body =>
+      match decode_loop r with
+      | Some (n, (fb, (d0, ops))) =>
+          match pall (let* est := prep n (plist pN) in let* r0 := p_lrec n in
+                      let* rs := prep (length ops) (p_lrec n) in pret (est, (r0, rs))) body with
+          | Some (est, (r0, rs)) => loop_ok n fb d0 ops est r0 rs
+          | None => false
+          end
+      | None => false
+      end
   | _, [0] => match case with
+              | 3 :: r => match decode_loop r with None => true | Some _ => false end
               | 0 :: r => match decode_unit r with None => true | Some _ => false end
               | 1 :: r => match decode_e2e r with None => true | Some _ => false end
               | 2 :: r => match decode_block r with None => true | Some _ => false end
